@@ -445,10 +445,25 @@ func c05parse(line string) *c05case {
 	return c
 }
 
+// c05run: a reload with an already expired timeout races the reload goroutine inside DB.Reload
+// (`select` on the expired context and the goroutine's completion: when both are ready Go picks at
+// random, and a CDB open can finish before the select is reached on a loaded machine). The schedule
+// asks for the timeout branch; a run in which the other branch was taken is repeated.
 func c05run(line string) (impl, verdict string) {
+	for try := 0; try < 5; try++ {
+		var lost bool
+		impl, verdict, lost = c05runOnce(line)
+		if !lost {
+			break
+		}
+	}
+	return impl, verdict
+}
+
+func c05runOnce(line string) (impl, verdict string, raceLost bool) {
 	c := c05parse(line)
 	if c == nil {
-		return "bad-op", "-"
+		return "bad-op", "-", false
 	}
 	// fresh working copies
 	work := filepath.Join(c05root, "work")
@@ -493,10 +508,10 @@ func c05run(line string) (impl, verdict string) {
 			ValidationKey: c05ValidationKey},
 		dnsserver.CacheConfig{Enabled: c.cache, LRUSize: 1024}, &dnsserver.DummyLogger{}, &stats.DummyStats{})
 	if err != nil {
-		return "handler-error", "FAIL:setup"
+		return "handler-error", "FAIL:setup", false
 	}
 	if err := h.Load(); err != nil {
-		return "load-error", "FAIL:setup"
+		return "load-error", "FAIL:setup", false
 	}
 	s := &c05sched{byGid: map[uint64]*c05worker{}, h: h, backend: c.backend}
 	c05cur = s
@@ -686,7 +701,7 @@ func c05run(line string) (impl, verdict string) {
 	finalPath := pathID(h.DBPathForVerif())
 	if stuck != "" {
 		// cannot clean up reliably: leave the handler to the process exit
-		return stuck, "FAIL:stuck"
+		return stuck, "FAIL:stuck", false
 	}
 	h.Close()
 	c05cleanLogs()
@@ -700,7 +715,12 @@ func c05run(line string) (impl, verdict string) {
 	if impl == "" {
 		impl = "-"
 	}
-	return impl, c05oracle(c, noopViol)
+	for _, w := range c.workers {
+		if w.kind == 'r' && w.timeout && w.out == "ok" {
+			raceLost = true
+		}
+	}
+	return impl, c05oracle(c, noopViol), raceLost
 }
 
 // c05applyDiff brings the RocksDB primary at dir from generation a to generation b.
